@@ -199,6 +199,8 @@ def triage_key(v):
     parts = [inv]
     if isinstance(d, dict):
         op = d.get("op") or {}
+        if not isinstance(op, dict):
+            op = {"id": op}
         parts.append(str(op.get("fn") or op.get("gen") or op.get("id") or ""))
         for side in ("ref", "sys"):
             o = d.get(side)
